@@ -22,6 +22,7 @@ package c05
 import (
 	"crypto/sha256"
 	"fmt"
+	"math/big"
 	"math/rand"
 	"os"
 	"path/filepath"
@@ -34,21 +35,29 @@ import (
 	sdkmath "cosmossdk.io/math"
 	codectypes "github.com/cosmos/cosmos-sdk/codec/types"
 	sdk "github.com/cosmos/cosmos-sdk/types"
+	"github.com/ethereum/go-ethereum/common"
 
+	authtypes "github.com/cosmos/cosmos-sdk/x/auth/types"
+	fxcontract "github.com/functionx/fx-core/v8/contract"
 	fxtypes "github.com/functionx/fx-core/v8/types"
 	crosschainkeeper "github.com/functionx/fx-core/v8/x/crosschain/keeper"
 	"github.com/functionx/fx-core/v8/x/crosschain/types"
+	erc20types "github.com/functionx/fx-core/v8/x/erc20/types"
 
 	"fxverif/harness/hx"
 )
 
 const (
-	nActors = 4
-	nTokens = 3
+	nActors  = 4
+	nTokens  = 3
 	fundEach = 1_000_000 // of the base denom and of the bridge denom, per actor and token
+	ercFund  = 500_000   // of the token's ERC-20 (FIP-20) contract, per actor and token
 )
 
-type tokenInfo struct{ base, bridge, contract string }
+type tokenInfo struct {
+	base, bridge, contract string
+	erc20                  common.Address
+}
 
 type env struct {
 	s       *hx.Suite
@@ -102,10 +111,28 @@ func setupChain(t *testing.T, s *hx.Suite, chain string, k crosschainkeeper.Keep
 		if err := k.AddBridgeTokenExecuted(s.Ctx, &types.MsgBridgeTokenClaim{TokenContract: contract, Name: "Test Token", Symbol: ti.bridge, Decimals: 18, ChainName: chain}); err != nil {
 			t.Fatalf("add bridge token: %v", err)
 		}
-		s.AddTokenPair(ti.base, false)
+		ti.erc20 = s.AddTokenPair(ti.base, false)
+		// as RegisterNativeERC20 does for a registered token: the bridge denom is an alias of the base denom (a refund that
+		// continues into the EVM converts bridge denom -> base denom -> ERC-20)
+		s.App.Erc20Keeper.SetAliasesDenom(s.Ctx, ti.base, ti.bridge)
+		s.MintTokenToModule(erc20types.ModuleName, sdk.NewCoin(ti.base, sdkmath.NewInt(1e15))) // the base coins locked behind the alias supply
 		s.MintTokenToModule(chain, sdk.NewCoin(ti.bridge, sdkmath.NewInt(1e15)))
+		erc20Owner := common.BytesToAddress(authtypes.NewModuleAddress(erc20types.ModuleName).Bytes())
+		maxU := new(big.Int).Sub(new(big.Int).Lsh(big.NewInt(1), 255), big.NewInt(1))
+		// the module's ERC-20 escrow is shared by all holders of the token on a live chain: give it a reserve
+		if _, err := s.App.EvmKeeper.ApplyContract(s.Ctx, erc20Owner, ti.erc20, nil, fxcontract.GetFIP20().ABI, "mint", erc20Owner, big.NewInt(1e15)); err != nil {
+			t.Fatalf("mint erc20 reserve: %v", err)
+		}
 		for _, a := range e.actors {
 			s.MintToken(a, sdk.NewCoin(ti.base, sdkmath.NewInt(fundEach)), sdk.NewCoin(ti.bridge, sdkmath.NewInt(fundEach)))
+			// ERC-20 holdings of the actor's EVM address, and its approval of the crosschain precompile
+			ea := common.BytesToAddress(a.Bytes())
+			if _, err := s.App.EvmKeeper.ApplyContract(s.Ctx, erc20Owner, ti.erc20, nil, fxcontract.GetFIP20().ABI, "mint", ea, big.NewInt(ercFund)); err != nil {
+				t.Fatalf("mint erc20: %v", err)
+			}
+			if _, err := s.App.EvmKeeper.ApplyContract(s.Ctx, ea, ti.erc20, nil, fxcontract.GetFIP20().ABI, "approve", types.GetAddress(), maxU); err != nil {
+				t.Fatalf("approve: %v", err)
+			}
 		}
 		e.tokens = append(e.tokens, ti)
 		e.tokenOf[contract] = i
@@ -149,7 +176,11 @@ type snap struct {
 	calls   []callRec
 	pend    [][3]uint64
 	bal     []int64
+	erc     []int64 // ERC-20 part of bal
+	rel     []int   // pool / batch entries that have an OutgoingTransferRelation (created through the crossChain precompile)
+	fromMsg []int   // outgoing bridge calls marked BridgeCallFromMsg
 	obsExt  uint64
+	next    [3]uint64 // id counters: next transfer id, batch nonce, bridge-call nonce
 }
 
 type seq struct {
@@ -176,25 +207,43 @@ type seq struct {
 	extExecTx   map[int]bool        // transfers paid out on the external chain
 	blockJump   int64               // fxcore blocks since the last observation
 	admMode     bool                // the generator produces admissible events only
+	evmTouched  bool                // a precompile-originated op has succeeded in this sequence: ERC-20 balances are re-read
+	relEver     map[int]bool        // transfer ids created through the crossChain precompile
+	msgEver     map[int]bool        // bridge-call nonces created by MsgBridgeCall
 	// the ghost exactly as Model/C05Ext.lean defines it (Ext / Ext.next / admissible): compared with the Lean driver's
 	// verdict on every observation line, and used for the theorem-shaped monitor (whole run admissible => event applied)
 	lg leanGhost
 }
 
 type leanGhost struct {
-	height     uint64
-	lastNonce  map[int]int
-	created    map[[2]int]uint64 // (token, nonce) -> timeout
-	calls      map[int]uint64    // nonce -> timeout
-	callDone   map[int]bool
-	allAdm     bool // every observed event so far was admissible
-	admNow     string
+	height    uint64
+	lastNonce map[int]int
+	created   map[[2]int]uint64 // (token, nonce) -> timeout
+	calls     map[int]uint64    // nonce -> timeout
+	callDone  map[int]bool
+	allAdm    bool // every observed event so far was admissible
+	admNow    string
+}
+
+// normOp maps a precompile-originated op to the message op with the same keeper entry point (the monitors' clauses are
+// the same; the origin-specific clauses look at `evm`)
+func normOp(op string) (w []string, evm bool) {
+	w = strings.Fields(op)
+	switch w[0] {
+	case "psend":
+		w[0], evm = "send", true
+	case "pcall":
+		w[0], evm = "bcall", true
+	case "pcancel":
+		w[0], evm = "cancel", true
+	}
+	return w, evm
 }
 
 // leanStep mirrors `admissible` and `Ext.next`.
 func (q *seq) leanStep(op, res string, pre, post snap) {
 	g := &q.lg
-	w := strings.Fields(op)
+	w, _ := normOp(op)
 	g.admNow = "-"
 	switch w[0] {
 	case "reqbatch":
@@ -316,10 +365,32 @@ func (q *seq) snapshot() snap {
 	for _, a := range q.e.actors {
 		for _, t := range q.e.tokens {
 			b := q.e.s.App.BankKeeper.GetBalance(ctx, a, t.base).Amount.Add(q.e.s.App.BankKeeper.GetBalance(ctx, a, t.bridge).Amount)
-			sn.bal = append(sn.bal, b.Int64())
+			// the ERC-20 balances can only move once a precompile-originated entry exists in this sequence; until then they
+			// are the funding constant (if that were wrong, the bank part — and so `bal` — would differ from the model)
+			ev := int64(ercFund)
+			if q.evmTouched {
+				v, err := q.e.s.App.EvmKeeper.ERC20BalanceOf(ctx, t.erc20, common.BytesToAddress(a.Bytes()))
+				if err != nil {
+					panic(err)
+				}
+				ev = v.Int64()
+			}
+			sn.erc = append(sn.erc, ev)
+			sn.bal = append(sn.bal, b.Int64()+ev)
+		}
+	}
+	for id := uint64(1); id < q.seqVal(types.KeyLastTxPoolID); id++ {
+		if q.e.s.App.Erc20Keeper.HasOutgoingTransferRelation(ctx, q.e.chain, id) {
+			sn.rel = append(sn.rel, int(id))
+		}
+	}
+	for n := uint64(1); n < q.seqVal(types.KeyLastBridgeCallID); n++ {
+		if k.HasBridgeCallFromMsg(ctx, n) {
+			sn.fromMsg = append(sn.fromMsg, int(n))
 		}
 	}
 	sn.obsExt = k.GetLastObservedBlockHeight(ctx).ExternalBlockHeight
+	sn.next = [3]uint64{q.seqVal(types.KeyLastTxPoolID), q.seqVal(types.KeyLastOutgoingBatchID), q.seqVal(types.KeyLastBridgeCallID)}
 	return sn
 }
 
@@ -367,11 +438,21 @@ func (q *seq) line(res string, sn snap) string {
 	for _, b := range sn.bal {
 		bal = append(bal, strconv.FormatInt(b, 10))
 	}
+	var erc, rel, fm []string
+	for _, b := range sn.erc {
+		erc = append(erc, strconv.FormatInt(b, 10))
+	}
+	for _, i := range sn.rel {
+		rel = append(rel, strconv.Itoa(i))
+	}
+	for _, i := range sn.fromMsg {
+		fm = append(fm, strconv.Itoa(i))
+	}
 	h := q.e.k.GetLastObservedBlockHeight(q.ctx)
-	return fmt.Sprintf("%s next=%d,%d,%d pool=[%s] batches=[%s] calls=[%s] pend=[%s] obs=%d,%d,%d bal=%s", res,
-		q.seqVal(types.KeyLastTxPoolID), q.seqVal(types.KeyLastOutgoingBatchID), q.seqVal(types.KeyLastBridgeCallID),
+	return fmt.Sprintf("%s next=%d,%d,%d pool=[%s] batches=[%s] calls=[%s] pend=[%s] obs=%d,%d,%d bal=%s erc=%s rel=[%s] frommsg=[%s]", res,
+		sn.next[0], sn.next[1], sn.next[2],
 		strings.Join(pool, ";"), strings.Join(batches, ";"), strings.Join(calls, ";"), strings.Join(pend, ";"),
-		h.ExternalBlockHeight, h.BlockHeight, q.e.k.GetLastObservedEventNonce(q.ctx), strings.Join(bal, ","))
+		h.ExternalBlockHeight, h.BlockHeight, q.e.k.GetLastObservedEventNonce(q.ctx), strings.Join(bal, ","), strings.Join(erc, ","), strings.Join(rel, ","), strings.Join(fm, ","))
 }
 
 // deliver runs f in a cache context committed only on success (as a transaction); returns ok / err / panic.
@@ -395,8 +476,14 @@ func (q *seq) deliver(validate func() error, f func(ctx sdk.Context) (uint64, er
 		write()
 		return fmt.Sprintf("ok:%d", n)
 	case strings.HasPrefix(r, "panic:"):
+		if os.Getenv("C05_DEBUG") != "" {
+			fmt.Fprintln(os.Stderr, "PANIC", r)
+		}
 		q.out.Count("res:panic")
 		return "panic"
+	}
+	if os.Getenv("C05_DEBUG") == "2" {
+		fmt.Fprintln(os.Stderr, "ERR", r)
 	}
 	q.out.Count("res:err")
 	return "err"
@@ -483,6 +570,75 @@ func (q *seq) opBridgeCall(a, refund int, to, data, memo string, coins [][2]int6
 	return fmt.Sprintf("bcall %d %d %s %s %s %s", a, refund, to, dash(data), dash(memo), dash(strings.Join(parts, ","))), res
 }
 
+// evmCall runs a real EVM message from the actor's EVM address to the crosschain precompile (committed only on success).
+func (q *seq) evmCall(a int, data []byte, ret func() uint64) string {
+	to := types.GetAddress()
+	res := q.deliver(nil, func(ctx sdk.Context) (uint64, error) {
+		r, err := q.e.s.App.EvmKeeper.CallEVM(ctx, common.BytesToAddress(q.e.actors[a].Bytes()), &to, big.NewInt(0), 3_000_000, data, true)
+		if err != nil {
+			return 0, err
+		}
+		if r.Failed() {
+			return 0, fmt.Errorf("vm: %s", r.VmError)
+		}
+		return ret(), nil
+	})
+	return res
+}
+
+func (q *seq) erc20Of(tk int) common.Address {
+	if tk >= 0 && tk < nTokens {
+		return q.e.tokens[tk].erc20
+	}
+	return common.BytesToAddress(detBytes("no-such-erc20", tk))
+}
+
+// psend: the crossChain precompile with the token's ERC-20 contract (target = this chain)
+func (q *seq) opPSend(a int, dest string, tk int, amount, fee int64) (string, string) {
+	data, err := types.GetABI().Pack("crossChain", q.erc20Of(tk), dest, big.NewInt(amount), big.NewInt(fee), fxtypes.MustStrToByte32(q.e.chain), "")
+	if err != nil {
+		panic(err)
+	}
+	id := q.seqVal(types.KeyLastTxPoolID)
+	res := q.evmCall(a, data, func() uint64 { return id })
+	if strings.HasPrefix(res, "ok") {
+		q.evmTouched = true
+	}
+	return fmt.Sprintf("psend %d %s %d %d %d", a, dest, tk, amount, fee), res
+}
+
+// pcall: the bridgeCall precompile with ERC-20 contracts and amounts in the caller's order
+func (q *seq) opPCall(a, refund int, to, data, memo string, coins [][2]int64) (string, string) {
+	tokens, amounts := []common.Address{}, []*big.Int{}
+	var parts []string
+	for _, c := range coins {
+		tokens = append(tokens, q.erc20Of(int(c[0])))
+		amounts = append(amounts, big.NewInt(c[1]))
+		parts = append(parts, fmt.Sprintf("%d:%d", c[0], c[1]))
+	}
+	input, err := types.GetABI().Pack("bridgeCall", q.e.chain, common.BytesToAddress(q.e.actors[refund].Bytes()), tokens, amounts,
+		common.BytesToAddress(types.ExternalAddrToAccAddr(q.e.chain, to).Bytes()), common.FromHex(data), big.NewInt(0), common.FromHex(memo))
+	if err != nil {
+		panic(err)
+	}
+	n := q.seqVal(types.KeyLastBridgeCallID)
+	res := q.evmCall(a, input, func() uint64 { return n })
+	if strings.HasPrefix(res, "ok") {
+		q.evmTouched = true
+	}
+	return fmt.Sprintf("pcall %d %d %s %s %s %s", a, refund, to, dash(data), dash(memo), dash(strings.Join(parts, ","))), res
+}
+
+// pcancel: the cancelSendToExternal precompile (same keeper entry point as MsgCancelSendToExternal)
+func (q *seq) opPCancel(id uint64, who int) (string, string) {
+	data, err := types.GetABI().Pack("cancelSendToExternal", q.e.chain, new(big.Int).SetUint64(id))
+	if err != nil {
+		panic(err)
+	}
+	res := q.evmCall(who, data, func() uint64 { return 0 })
+	return fmt.Sprintf("pcancel %d %d", id, who), res
+}
+
 func (q *seq) claim(c types.ExternalClaim) string {
 	any, err := codectypes.NewAnyWithValue(c)
 	if err != nil {
@@ -532,6 +688,31 @@ func (q *seq) opParams(p1, p2, p3, p4 uint64) (string, string) {
 	p.AverageBlockTime, p.AverageExternalBlockTime, p.ExternalBatchTimeout, p.BridgeCallTimeout = p1, p2, p3, p4
 	res := q.deliver(p.ValidateBasic, func(ctx sdk.Context) (uint64, error) { return 0, q.e.k.SetParams(ctx, &p) })
 	return fmt.Sprintf("params %d %d %d %d", p1, p2, p3, p4), res
+}
+
+// genesisOn: the export/import round trip is driven only when C05_GENESIS=1 (it reproduces a defect of the unchanged tree —
+// fixes/C05-genesis-id-counters.md — that is not yet listed in known_findings.json)
+func genesisOn() bool { return os.Getenv("C05_GENESIS") == "1" }
+
+// opGenesis: ExportGenesis of the chain's crosschain module, wipe its store, InitGenesis from the exported state (what a
+// chain export / restart-from-genesis does to this module).  The model (driver) treats it as the identity.
+func (q *seq) opGenesis() (string, string) {
+	res := q.deliver(nil, func(ctx sdk.Context) (uint64, error) {
+		gs := crosschainkeeper.ExportGenesis(ctx, q.e.k)
+		store := ctx.KVStore(q.e.s.App.GetKey(q.e.chain))
+		var keys [][]byte
+		it := store.Iterator(nil, nil)
+		for ; it.Valid(); it.Next() {
+			keys = append(keys, append([]byte{}, it.Key()...))
+		}
+		it.Close()
+		for _, k := range keys {
+			store.Delete(k)
+		}
+		crosschainkeeper.InitGenesis(ctx, q.e.k, gs)
+		return 0, nil
+	})
+	return "genesis", res
 }
 
 func (q *seq) opBlock(n int64) (string, string) {
@@ -589,7 +770,7 @@ func (q *seq) projected() uint64 {
 // can produce (admissible) must find its record on fxcore, and nothing paid out externally is refunded or batched again.
 func (q *seq) extMonitor(op, res string, pre, post snap) {
 	out := propFilter{q.out}
-	w := strings.Fields(op)
+	w, _ := normOp(op)
 	okRes := strings.HasPrefix(res, "ok")
 	switch w[0] {
 	case "reqbatch":
@@ -807,7 +988,7 @@ func inside(sn snap) []int64 {
 
 func (q *seq) monitor(op, res string, pre, post snap) {
 	out := propFilter{q.out}
-	w := strings.Fields(op)
+	w, evm := normOp(op)
 	movedOut := make([]int64, nTokens) // value an observed execution takes out, per token
 	defer func() {
 		a, b := inside(pre), inside(post)
@@ -901,7 +1082,23 @@ func (q *seq) monitor(op, res string, pre, post snap) {
 		delta[i] = post.bal[i] - pre.bal[i]
 	}
 	expect := make([]int64, len(post.bal))
+	expectErc := make([]int64, len(post.bal)) // the ERC-20 part: moves only for precompile-originated entries
 	okRes := strings.HasPrefix(res, "ok")
+	// the origin marks never outlive the entry they belong to
+	for _, id := range post.rel {
+		if _, queued := place[id]; !queued {
+			out.Violate("C05 origin marks: a transfer that is neither in the pool nor in a batch still has an outgoing-transfer relation, after " + w[0])
+		}
+	}
+	for _, n := range post.fromMsg {
+		held := false
+		for _, c := range post.calls {
+			held = held || c.nonce == n
+		}
+		if !held {
+			out.Violate("C05 origin marks: a from-message mark exists for a bridge call that is not stored, after " + w[0])
+		}
+	}
 	if !okRes {
 		// failed message: nothing changes
 		if q.line("", pre) != q.line("", post) {
@@ -936,6 +1133,20 @@ func (q *seq) monitor(op, res string, pre, post snap) {
 		}
 		q.everPresent[int(id)] = true
 		expect[balIdx(a, tk)] = -(am + fee)
+		hasRel := false
+		for _, r := range post.rel {
+			hasRel = hasRel || r == int(id)
+		}
+		if evm {
+			expectErc[balIdx(a, tk)] = -(am + fee)
+			q.relEver[int(id)] = true
+			if fee == 0 {
+				q.out.Count("scn:psend:zero-fee")
+			}
+		}
+		if hasRel != evm {
+			out.Violate(fmt.Sprintf("C05 origin marks: outgoing-transfer relation of a new pool entry is %v although it was created through the precompile: %v", hasRel, evm))
+		}
 	case "cancel":
 		id, _ := strconv.Atoi(w[1])
 		who, _ := strconv.Atoi(w[2])
@@ -956,6 +1167,13 @@ func (q *seq) monitor(op, res string, pre, post snap) {
 		q.goneTx[id] = "refunded"
 		q.refundedTx[id] = true
 		expect[balIdx(who, t.token)] = t.amount + t.fee
+		if q.relEver[id] { // created from the creator's ERC-20 balance: refunded in that form
+			expectErc[balIdx(who, t.token)] = t.amount + t.fee
+			q.out.Count("scn:cancel:erc20-origin")
+		}
+		if evm {
+			q.out.Count("scn:cancel:through-precompile")
+		}
 		if delta[balIdx(who, t.token)] != t.amount+t.fee {
 			out.Violate(fmt.Sprintf("C05 refund exact: cancel refunded %d, expected amount+fee", delta[balIdx(who, t.token)]))
 		}
@@ -1042,6 +1260,19 @@ func (q *seq) monitor(op, res string, pre, post snap) {
 		for _, x := range nc.coins {
 			cs = append(cs, fmt.Sprintf("%d:%d", x[0], x[1]))
 			expect[balIdx(a, int(x[0]))] -= x[1]
+			if evm {
+				expectErc[balIdx(a, int(x[0]))] -= x[1]
+			}
+		}
+		marked := false
+		for _, m := range post.fromMsg {
+			marked = marked || uint64(m) == n
+		}
+		if marked == evm {
+			out.Violate(fmt.Sprintf("C05 origin marks: from-message mark of a new bridge call is %v although it was created through the precompile: %v", marked, evm))
+		}
+		if !evm {
+			q.msgEver[int(n)] = true
 		}
 		if nc.sender != a || nc.refund != r || nc.to != w[3] || dash(nc.data) != w[4] || dash(nc.memo) != w[5] || dash(strings.Join(cs, ",")) != w[6] {
 			out.Violate("C05 queued is supplied: bridge call record differs from the sender's input")
@@ -1123,6 +1354,12 @@ func (q *seq) monitor(op, res string, pre, post snap) {
 			q.refundedCall[c.nonce] = true
 			for _, x := range c.coins {
 				expect[balIdx(c.refund, int(x[0]))] += x[1]
+				if !q.msgEver[c.nonce] {
+					expectErc[balIdx(c.refund, int(x[0]))] += x[1]
+				}
+			}
+			if !q.msgEver[c.nonce] {
+				q.out.Count("scn:call-timeout-refund:erc20-origin")
 			}
 		}
 	case "exec":
@@ -1157,6 +1394,39 @@ func (q *seq) monitor(op, res string, pre, post snap) {
 				q.refundedCall[c.nonce] = true
 				for _, x := range c.coins {
 					expect[balIdx(c.refund, int(x[0]))] += x[1]
+					if !q.msgEver[c.nonce] {
+						expectErc[balIdx(c.refund, int(x[0]))] += x[1]
+					}
+				}
+				if !q.msgEver[c.nonce] {
+					q.out.Count("scn:call-failed-refund:erc20-origin")
+				}
+			}
+		}
+	case "genesis":
+		if a, b := q.line("", pre), q.line("", post); a != b {
+			nx := func(l string) string { return strings.Fields(l)[0] }
+			if nx(a) != nx(b) {
+				for _, t := range post.pool {
+					if uint64(t.id) >= post.next[0] {
+						q.out.Count("scn:genesis:live-transfer-id-at-or-above-the-restarted-counter")
+						break
+					}
+				}
+				out.Violate(fmt.Sprintf("C05 ids across genesis export/import: the id counters (next transfer id, batch nonce, bridge-call nonce: %s) are not carried by the exported genesis and restart (%s) while the imported transfers and batches keep their ids: the next send / batch / bridge call reuses an identifier", nx(a), nx(b)))
+			}
+			if len(post.calls) != len(pre.calls) || len(post.pend) != len(pre.pend) {
+				out.Violate(fmt.Sprintf("C05 exactly one state across genesis export/import: %d stored outgoing bridge calls and %d pending results are not in the exported genesis: they vanish without execution or refund", len(pre.calls)-len(post.calls), len(pre.pend)-len(post.pend)))
+			}
+			if len(post.pool) != len(pre.pool) || len(post.batches) != len(pre.batches) {
+				out.Violate("C05 exactly one state across genesis export/import: pool / batches differ after the round trip")
+			}
+		}
+		// the conservation clause below does not apply to records the export drops
+		for _, c := range pre.calls {
+			for _, x := range c.coins {
+				if len(post.calls) == 0 && x[0] >= 0 && x[0] < nTokens {
+					movedOut[x[0]] += x[1]
 				}
 			}
 		}
@@ -1170,6 +1440,12 @@ func (q *seq) monitor(op, res string, pre, post snap) {
 	for i := range delta {
 		if delta[i] != expect[i] {
 			out.Violate(fmt.Sprintf("C05 refund exact / conservation: balance of an actor changed by %d, expected %d, at %s", delta[i], expect[i], strings.Join(w[:min(len(w), 3)], " ")))
+			break
+		}
+	}
+	for i := range delta {
+		if d := post.erc[i] - pre.erc[i]; d != expectErc[i] {
+			out.Violate(fmt.Sprintf("C05 refund form: the ERC-20 balance of an actor changed by %d, expected %d (an entry created from an ERC-20 balance through the precompile is refunded as ERC-20 to the same account, one created by a message as coins), at %s", d, expectErc[i], strings.Join(w[:min(len(w), 3)], " ")))
 			break
 		}
 	}
@@ -1291,6 +1567,16 @@ func (q *seq) randomOp() {
 		case 4:
 			dest = "0x12" // malformed
 		}
+		if q.rng.Intn(4) == 0 { // through the crossChain precompile, from the ERC-20 balance (a zero fee is accepted there)
+			switch q.rng.Intn(12) {
+			case 0:
+				fee = 0
+			case 1:
+				amount = ercFund + 1 // more than the ERC-20 balance, less than the total holding
+			}
+			q.do(func() (string, string) { return q.opPSend(a, dest, tk, amount, fee) })
+			break
+		}
 		q.do(func() (string, string) { return q.opSend(a, dest, tk, amount, fee) })
 	case r < 36: // cancel
 		who := q.rng.Intn(nActors)
@@ -1308,6 +1594,10 @@ func (q *seq) randomOp() {
 			id, who = uint64(t.id), t.sender // batched: must fail
 		default:
 			id = uint64(q.rng.Intn(int(q.lastTx) + 3)) // settled / unknown / zero
+		}
+		if q.rng.Intn(4) == 0 {
+			q.do(func() (string, string) { return q.opPCancel(id, who) })
+			break
 		}
 		q.do(func() (string, string) { return q.opCancel(id, who) })
 	case r < 44: // increase fee
@@ -1382,12 +1672,16 @@ func (q *seq) randomOp() {
 			ah := q.admissibleHeight(c.timeout)
 			q.do(func() (string, string) { return q.opObsResult(ah, uint64(c.nonce), q.rng.Intn(2) == 0) })
 		case k >= 35 && k < 39:
-			q.do(func() (string, string) { return q.opObsBatch(h, q.rng.Intn(nTokens), uint64(q.rng.Intn(int(q.lastBatch)+2))) })
+			q.do(func() (string, string) {
+				return q.opObsBatch(h, q.rng.Intn(nTokens), uint64(q.rng.Intn(int(q.lastBatch)+2)))
+			})
 		case k < 60 && len(sn.calls) > 0:
 			c := sn.calls[q.rng.Intn(len(sn.calls))]
 			q.do(func() (string, string) { return q.opObsResult(h, uint64(c.nonce), q.rng.Intn(2) == 0) })
 		case k >= 60 && k < 62:
-			q.do(func() (string, string) { return q.opObsResult(h, uint64(q.rng.Intn(int(q.lastCall)+2)), q.rng.Intn(2) == 0) })
+			q.do(func() (string, string) {
+				return q.opObsResult(h, uint64(q.rng.Intn(int(q.lastCall)+2)), q.rng.Intn(2) == 0)
+			})
 		default:
 			q.do(func() (string, string) { return q.opObsOther(h) })
 		}
@@ -1407,6 +1701,20 @@ func (q *seq) randomOp() {
 		}
 		if len(coins) > 0 && q.rng.Intn(25) == 0 {
 			coins[0][1] = 5 * fundEach
+		}
+		if q.rng.Intn(3) == 0 { // through the bridgeCall precompile: ERC-20 tokens in the caller's order, repeats allowed
+			q.rng.Shuffle(len(coins), func(i, j int) { coins[i], coins[j] = coins[j], coins[i] })
+			if len(coins) > 0 && q.rng.Intn(6) == 0 {
+				coins = append(coins, [2]int64{coins[0][0], int64(1 + q.rng.Intn(50))})
+			}
+			data := q.hexStr(6)
+			if q.rng.Intn(6) == 0 {
+				coins, data = nil, "" // neither tokens nor data: the precompile accepts it
+			}
+			q.do(func() (string, string) {
+				return q.opPCall(a, refund, hx.Pick(q.rng, q.e.dests), data, q.hexStr(4), coins)
+			})
+			break
 		}
 		q.do(func() (string, string) {
 			return q.opBridgeCall(a, refund, hx.Pick(q.rng, q.e.dests), q.hexStr(6), q.hexStr(4), coins)
@@ -1587,6 +1895,57 @@ func (q *seq) scripted(kind int) {
 				}
 			}
 		}
+	case 6: // entries created through the precompiles (ERC-20 origin) next to entries created by messages: every way of settling
+		q.do(func() (string, string) { return q.opParams(1000, 3000, 60000, 3600001) })
+		q.do(func() (string, string) { return q.opObsOther(uint64(100 + q.rng.Intn(900))) })
+		q.do(func() (string, string) { return q.opPSend(0, d[0], 0, 100, 2) }) // 1: cancelled from the pool
+		q.do(func() (string, string) { return q.opPSend(1, d[0], 0, 100, 3) }) // 2: batched, batch times out, cancelled
+		send(2, 0, 100, 3)                                                     // 3: message origin, same batch
+		q.do(func() (string, string) { return q.opPSend(3, d[0], 1, 50, 0) })  // 4: zero fee, executed
+		q.do(func() (string, string) { return q.opCancel(1, 0) })
+		q.do(func() (string, string) { return q.opReqBatch(0, 1, 0, d[1]) })
+		q.do(func() (string, string) { return q.opBlock(1) })
+		send(0, 1, 10, 4)
+		q.do(func() (string, string) { return q.opReqBatch(1, 1, 0, d[1]) })
+		q.do(func() (string, string) { return q.opPCall(0, 1, d[2], "abcd", "", [][2]int64{{1, 30}, {0, 70}}) }) // 1: times out
+		q.do(func() (string, string) { return q.opBridgeCall(2, 3, d[2], "ab", "", [][2]int64{{0, 5}}) })        // 2: message origin, times out
+		q.do(func() (string, string) { return q.opPCall(2, 2, d[2], "", "", [][2]int64{{2, 9}, {2, 1}}) })       // 3: failed result
+		q.do(func() (string, string) { return q.opPCall(3, 0, d[2], "ff", "00", nil) })                          // 4: successful result
+		sn := q.snapshot()
+		for _, b := range sn.batches {
+			if b.token == 1 {
+				q.do(func() (string, string) { return q.opObsBatch(b.timeout-1, 1, uint64(b.nonce)) })
+			}
+		}
+		if len(sn.calls) >= 4 {
+			t := sn.calls[0].timeout
+			q.do(func() (string, string) { return q.opObsResult(t-1, 3, false) })
+			q.do(func() (string, string) { return q.opExec(q.e.k.GetLastObservedEventNonce(q.ctx)) })
+			q.do(func() (string, string) { return q.opObsResult(t-1, 4, true) })
+			q.do(func() (string, string) { return q.opExec(q.e.k.GetLastObservedEventNonce(q.ctx)) })
+			q.do(func() (string, string) { return q.opObsOther(t) })
+		}
+		sn = q.snapshot()
+		for _, b := range sn.batches {
+			bt := b.timeout
+			q.do(func() (string, string) { return q.opObsOther(bt + 1) })
+		}
+		q.do(func() (string, string) { return q.opPCancel(2, 1) })
+		q.do(func() (string, string) { return q.opPCancel(3, 2) })
+	case 7: // genesis export / import in the middle of a history (only with C05_GENESIS=1)
+		q.do(func() (string, string) { return q.opObsOther(uint64(300 + q.rng.Intn(300))) })
+		send(0, 0, 100, 2)
+		send(1, 0, 100, 3)
+		send(2, 1, 50, 1)
+		q.do(func() (string, string) { return q.opReqBatch(0, 1, 3, d[1]) })
+		if q.rng.Intn(2) == 0 {
+			q.do(func() (string, string) { return q.opBridgeCall(2, 3, d[2], "ab", "", [][2]int64{{0, 40}}) })
+		}
+		q.do(q.opGenesis)
+		send(3, 0, 70, 2)
+		q.do(func() (string, string) { return q.opBlock(1) })
+		q.do(func() (string, string) { return q.opReqBatch(1, 1, 0, d[1]) })
+		q.do(func() (string, string) { return q.opBridgeCall(0, 1, d[2], "cd", "", [][2]int64{{1, 5}}) })
 	case 5: // a quiet bridge: no event for longer than the timeout period on fxcore's clock, then the external chain acts
 		q.do(func() (string, string) { return q.opParams(1000, 3000, 60000, 3600001) })
 		q.do(func() (string, string) { return q.opObsOther(uint64(100 + q.rng.Intn(900))) })
@@ -1673,11 +2032,15 @@ func (q *seq) replayLine(line string) {
 		q.do(func() (string, string) { return q.opSend(int(num(1)), q.addr(w[2]), int(num(3)), num(4), num(5)) })
 	case w[0] == "cancel" && len(w) == 3:
 		q.do(func() (string, string) { return q.opCancel(uint64(num(1)), int(num(2))) })
+	case w[0] == "pcancel" && len(w) == 3:
+		q.do(func() (string, string) { return q.opPCancel(uint64(num(1)), int(num(2))) })
+	case w[0] == "psend" && len(w) == 6:
+		q.do(func() (string, string) { return q.opPSend(int(num(1)), q.addr(w[2]), int(num(3)), num(4), num(5)) })
 	case w[0] == "incfee" && len(w) == 5:
 		q.do(func() (string, string) { return q.opIncFee(uint64(num(1)), int(num(2)), int(num(3)), num(4)) })
 	case w[0] == "reqbatch" && len(w) == 5:
 		q.do(func() (string, string) { return q.opReqBatch(int(num(1)), num(2), num(3), q.addr(w[4])) })
-	case w[0] == "bcall" && len(w) == 7:
+	case (w[0] == "bcall" || w[0] == "pcall") && len(w) == 7:
 		var coins [][2]int64
 		if w[6] != "-" {
 			for _, c := range strings.Split(w[6], ",") {
@@ -1686,6 +2049,12 @@ func (q *seq) replayLine(line string) {
 				a, _ := strconv.ParseInt(p[1], 10, 64)
 				coins = append(coins, [2]int64{t, a})
 			}
+		}
+		if w[0] == "pcall" {
+			q.do(func() (string, string) {
+				return q.opPCall(int(num(1)), int(num(2)), q.addr(w[3]), undash(w[4]), undash(w[5]), coins)
+			})
+			break
 		}
 		q.do(func() (string, string) {
 			return q.opBridgeCall(int(num(1)), int(num(2)), q.addr(w[3]), undash(w[4]), undash(w[5]), coins)
@@ -1708,9 +2077,15 @@ func (q *seq) replayLine(line string) {
 		}
 		q.do(func() (string, string) { return q.opExec(n) })
 	case w[0] == "params" && len(w) == 5:
-		q.do(func() (string, string) { return q.opParams(uint64(num(1)), uint64(num(2)), uint64(num(3)), uint64(num(4))) })
+		q.do(func() (string, string) {
+			return q.opParams(uint64(num(1)), uint64(num(2)), uint64(num(3)), uint64(num(4)))
+		})
 	case w[0] == "block" && len(w) == 2:
 		q.do(func() (string, string) { return q.opBlock(num(1)) })
+	case w[0] == "genesis" && len(w) == 1:
+		if genesisOn() {
+			q.do(q.opGenesis)
+		}
 	default:
 		panic("corpus: bad line: " + line)
 	}
@@ -1720,10 +2095,10 @@ func newSeq(e *env, out *hx.Out, rng *rand.Rand) *seq {
 	ctx, _ := e.base.CacheContext()
 	q := &seq{e: e, ctx: ctx.WithEventManager(sdk.NewEventManager()), out: out, rng: rng, everPresent: map[int]bool{}, goneTx: map[int]string{}, executedTx: map[int]bool{},
 		refundedTx: map[int]bool{}, obsSuccessCall: map[int]bool{}, refundedCall: map[int]bool{}, executedCall: map[int]bool{},
-		extBatches: map[[2]int]batchRec{}, extLast: make([]int, nTokens), extCalls: map[int]callRec{}, extCallDone: map[int]bool{}, extExecTx: map[int]bool{},
+		relEver: map[int]bool{}, msgEver: map[int]bool{}, extBatches: map[[2]int]batchRec{}, extLast: make([]int, nTokens), extCalls: map[int]callRec{}, extCallDone: map[int]bool{}, extExecTx: map[int]bool{},
 		lg: leanGhost{lastNonce: map[int]int{}, created: map[[2]int]uint64{}, calls: map[int]uint64{}, callDone: map[int]bool{}, allAdm: true}}
 	p := e.params
-	out.Reset(strconv.Itoa(nActors), strconv.Itoa(nTokens), strconv.Itoa(2*fundEach), fmt.Sprint(p.AverageBlockTime), fmt.Sprint(p.AverageExternalBlockTime),
+	out.Reset(strconv.Itoa(nActors), strconv.Itoa(nTokens), strconv.Itoa(2*fundEach+ercFund), strconv.Itoa(ercFund), fmt.Sprint(p.AverageBlockTime), fmt.Sprint(p.AverageExternalBlockTime),
 		fmt.Sprint(p.ExternalBatchTimeout), fmt.Sprint(p.BridgeCallTimeout), fmt.Sprint(q.ctx.BlockHeight()))
 	return q
 }
@@ -1815,12 +2190,17 @@ func TestC05(t *testing.T) {
 		e := envs[i%len(envs)]
 		script := -1
 		switch {
-		case i < 12:
-			script = i % 6
+		case i < 14:
+			script = i % 7
 		case i%9 == 0:
-			script = 1 + rng.Intn(5)
+			script = 1 + rng.Intn(6)
 		}
 		runSeq(e, out, rng, i, nOps, script)
+	}
+	if genesisOn() {
+		for i := 0; i < 6; i++ {
+			runSeq(envs[i%len(envs)], out, rng, n+i, nOps, 7)
+		}
 	}
 	out.Stats.Extra["chains"] = []string{"eth", "bsc"}
 }
